@@ -116,10 +116,29 @@ def outOfJson (j : Json) : R StepOut := do
 def oraclesOnImpl (br : BR) (w : World) (exp : Exp) : List Step → List StepOut → List (String × Bool)
   | st :: steps, o :: outs =>
     let e := applyEvent br st.ev w exp
-    let here := RV.Oracle.CtlCanary.stepOracles { br with currentBatch := st.currentBatch } st.op st.cfg e.1 o
+    let here := RV.Oracle.CtlCanary.stepOracles { br with currentBatch := st.currentBatch } st.op st.cfg e.1 e.2 o
     let rest := oraclesOnImpl br o.w o.exp steps outs
     let keys := (here.map (·.1) ++ rest.map (·.1)).eraseDups
     keys.map fun k => (k, (here ++ rest).all (fun kv => kv.1 != k || kv.2))
+  | _, _ => []
+
+/-- what the call did, for the distribution statistics -/
+def effectTags (st : Step) (w : World) (o : StepOut) : List String :=
+  let dropped := (w.deps.filter fun d => d.finalizer && (match o.w.find d.name with
+    | some d' => !d'.finalizer
+    | none => true)).length
+  let scaled := w.deps.any fun d => match o.w.find d.name with
+    | some d' => d'.replicas != d.replicas
+    | none => false
+  (if st.op = .fin then [s!"fin:dropped:{min dropped 4}"] else []) ++
+  (if st.op = .fin ∧ o.res = .err ∧ dropped > 0 then ["fin:partial"] else []) ++
+  (if scaled then ["upgrade:scaled"] else []) ++
+  (if o.w.deps.length > w.deps.length then ["init:created"] else []) ++
+  (if st.op = .init ∧ o.res = .err ∧ o.calls ≤ 3 ∧ st.cfg.failAt.isNone then ["init:blockedByExpectation"] else [])
+
+def effectTagsRun (br : BR) (w : World) (exp : Exp) : List Step → List StepOut → List String
+  | st :: steps, o :: outs =>
+    effectTags st (applyEvent br st.ev w exp).1 o ++ effectTagsRun br o.w o.exp steps outs
   | _, _ => []
 
 def faultTag (st : Step) : String :=
@@ -143,6 +162,8 @@ def handle : Handler := fun op inp impl => do
       ((steps.map fun st => s!"op:{opStr st.op}") ++ (steps.map fun st => s!"ev:{evStr st.ev}") ++
        (steps.map faultTag) ++ (mouts.map fun o => s!"res:{resStr o.res}") ++
        (List.zipWith (fun st o => s!"{opStr st.op}:{resStr o.res}") steps mouts) ++
+       effectTagsRun br w exp steps mouts ++
+       (if br.waitResume then ["waitResume"] else []) ++ (if br.rolloutID then ["rolloutID"] else []) ++
        [s!"steps:{min steps.length 6}", s!"deps:{min w.deps.length 6}",
         s!"owned:{min (w.deps.filter RV.Oracle.CtlCanary.owned).length 5}",
         s!"match:{min (RV.Oracle.CtlCanary.matchCount br w) 3}",
